@@ -129,11 +129,11 @@ func IsEither(x uint8) bool { return x == 0xc0 || x == 0xc3 }
 
 // bit provenance
 type Rec struct {
-	Flag  bool
-	Low   uint8
-	High  uint8
-	Wide  uint16
-	Sign  int16
+	Flag bool
+	Low  uint8
+	High uint8
+	Wide uint16
+	Sign int16
 }
 
 func (r *Rec) Decode(d []byte) {
@@ -150,7 +150,7 @@ func (r *Rec) Decode(d []byte) {
 // package state
 var table = map[int]int{1: 2}
 
-func BadWritesTable(k int) { table[k] = 1 }
+func BadWritesTable(k int)     { table[k] = 1 }
 func GoodReadsTable(k int) int { return table[k] }
 
 // ---------------------------------------------------------------- flattened view
@@ -272,3 +272,102 @@ type SerializeBuffer interface {
 	PrependBytes(n int) ([]byte, error)
 	AppendBytes(n int) ([]byte, error)
 }
+
+// ---------------------------------------------------------------- view mechanisms added for the refactoring campaigns
+
+var failures int
+
+// DeferCount: a deferred literal over a named result counts failures; spliced at the exits,
+// the count happens exactly on the paths that return an error.
+func (c *conn) DeferCount(b []byte) (n int, err error) {
+	defer func() {
+		if err != nil {
+			failures++
+		}
+	}()
+	if err = c.step(b); err != nil {
+		return 0, err
+	}
+	return len(b), nil
+}
+
+type exchanger interface {
+	exchange(b []byte) error
+	peer() *conn
+}
+
+type viaStep struct{ c *conn }
+
+func (v *viaStep) exchange(b []byte) error { return v.c.step(b) }
+func (v *viaStep) peer() *conn             { return v.c }
+
+func runExchange(x exchanger, b []byte) int {
+	if err := x.exchange(b); err != nil {
+		return 1
+	}
+	return x.peer().calls
+}
+
+// Devirt: the interface method is resolved through the helper's parameter to viaStep's.
+func (c *conn) Devirt(b []byte) int {
+	return runExchange(&viaStep{c}, b)
+}
+
+func newCounter() func() {
+	first := true
+	return func() {
+		if first {
+			first = false
+			return
+		}
+		failures++
+	}
+}
+
+// Factory: a function value that can only be one literal is called through a local.
+func Factory() {
+	count := newCounter()
+	count()
+}
+
+type pageReq struct{ Index uint8 }
+
+func sendPage(r *pageReq) int { return int(r.Index) }
+
+// PagesVar and PagesField request pages 0,1,2,…: the index in a loop variable copied into
+// the request, or kept in the request and incremented.
+func PagesVar(n int) int {
+	req := &pageReq{}
+	t := 0
+	for i := uint8(0); int(i) < n; i++ {
+		req.Index = i
+		t += Opaque(req)
+	}
+	return t
+}
+
+func PagesField(n int) int {
+	req := &pageReq{}
+	t := 0
+	for j := 0; j < n; j++ {
+		t += Opaque(req)
+		req.Index++
+	}
+	return t
+}
+
+// PagesBad skips a page.
+func PagesBad(n int) int {
+	req := &pageReq{}
+	t := 0
+	for j := 0; j < n; j++ {
+		t += Opaque(req)
+		req.Index += 2
+	}
+	return t
+}
+
+var opaqueSink int
+
+// Opaque stands for an exchange (exported: stays a call in every view).
+func Opaque(r *pageReq) int { opaqueSink += int(r.Index); return opaqueSink }
